@@ -109,7 +109,27 @@ func c11Split(s string) *schema.StreamReader[string] {
 	return schema.StreamReaderFromArray([]string{s[:k], s[k:]})
 }
 
-func c11HandlerOpts(f c11Flat) []compose.GraphAddNodeOpt {
+// c11ReadAllMap: concatenates the chunks of a keyed stream (node with an output key).
+func c11ReadAllMap(sr *schema.StreamReader[map[string]any], key string) (string, error) {
+	defer sr.Close()
+	var sb strings.Builder
+	for {
+		c, err := sr.Recv()
+		if err == io.EOF {
+			return sb.String(), nil
+		}
+		if err != nil {
+			return "", err
+		}
+		if v, ok := c[key].(string); ok {
+			sb.WriteString(v)
+		}
+	}
+}
+
+// keyed: the node has an output key (it feeds a join of a Graph), so its post-handler sees
+// map[string]any{key: out}.
+func c11HandlerOpts(f c11Flat, keyed bool) []compose.GraphAddNodeOpt {
 	var opts []compose.GraphAddNodeOpt
 	n, gid, path := f.Node, f.Gid, f.Path
 	preTag, postTag := fmt.Sprintf("p%d:", gid), fmt.Sprintf("q%d:", gid)
@@ -142,6 +162,30 @@ func c11HandlerOpts(f c11Flat) []compose.GraphAddNodeOpt {
 			}
 			return c11Split(pre(ctx, v, s)), nil
 		}))
+	}
+	if keyed {
+		key := n.Key
+		switch n.Post {
+		case "plain":
+			opts = append(opts, compose.WithStatePostHandler(func(ctx context.Context, in map[string]any, s *C11State) (map[string]any, error) {
+				v, ok := in[key].(string)
+				if !ok {
+					return nil, fmt.Errorf("post %s: no string under the output key", path)
+				}
+				return map[string]any{key: post(ctx, v, s)}, nil
+			}))
+		case "stream":
+			opts = append(opts, compose.WithStreamStatePostHandler(func(ctx context.Context, in *schema.StreamReader[map[string]any], s *C11State) (*schema.StreamReader[map[string]any], error) {
+				v, err := c11ReadAllMap(in, key)
+				if err != nil {
+					return nil, err
+				}
+				out := post(ctx, v, s)
+				k := len(out) / 2
+				return schema.StreamReaderFromArray([]map[string]any{{key: out[:k]}, {key: out[k:]}}), nil
+			}))
+		}
+		return opts
 	}
 	switch n.Post {
 	case "plain":
@@ -270,7 +314,7 @@ func c11Build(l *c11Layout, gi int, ctrs int) (*c11Built, error) {
 		wf := compose.NewWorkflow[string, string](gopts...)
 		for ni := range spec.Nodes {
 			f := l.Nodes[l.GNodes[gi][ni]]
-			opts := c11HandlerOpts(f)
+			opts := c11HandlerOpts(f, false)
 			var wn *compose.WorkflowNode
 			if f.Node.Sub != nil {
 				sb, err := subOf(f)
@@ -303,7 +347,7 @@ func c11Build(l *c11Layout, gi int, ctrs int) (*c11Built, error) {
 	g := compose.NewGraph[string, string](gopts...)
 	for ni := range spec.Nodes {
 		f := l.Nodes[l.GNodes[gi][ni]]
-		opts := c11HandlerOpts(f)
+		opts := c11HandlerOpts(f, feedsJoin[ni])
 		if feedsJoin[ni] {
 			opts = append(opts, compose.WithOutputKey(f.Node.Key))
 		}
